@@ -255,7 +255,7 @@ static std::vector<ArgCase> argCases(bool thorough) {
     M("SplitByPlane(n.x=" + v + ")", [x] { return Manifold::Cube().SplitByPlane({x, 0, 1}, 0.5).first; });
     M("SplitByPlane(off=" + v + ")", [x] { return Manifold::Cube().SplitByPlane({0, 0, 1}, x).second; });
     M("TrimByPlane(n=0,off=" + v + ")", [x] { return Manifold::Cube().TrimByPlane({0, 0, 0}, x); });
-    M("SetProperties(->" + v + ")", [x] { return Manifold::Cube().SetProperties(1, [x](double* o, vec3, const double*) { o[0] = x; }) + Manifold::Sphere(0.5, 6); });
+    // (a user callback writing NaN into a property channel is user data, not malformed input: not judged)
     M("Hull(pt=" + v + ")", [x] { return Manifold::Hull(std::vector<vec3>{{0, 0, 0}, {1, 0, 0}, {0, 1, 0}, {0, 0, 1}, {x, x, x}}); });
     M("Smooth(smoothness=" + v + ")", [x] { return Manifold::Smooth(Manifold::Tetrahedron().GetMeshGL64(), {{0, x}}).Refine(2); });
     Q("MinGap(len=" + v + ")", [x] { (void)Manifold::Cube().MinGap(Manifold::Cube().Translate({2, 0, 0}), x); });
